@@ -1682,3 +1682,21 @@ DEFAULT_MODELS = {
     np.minimum: m_np_minimum,
     "ndarray.setflags": m_ndarray_setflags,
 }
+
+
+def _register_scipy_models():
+    try:
+        from scipy.special import erfc
+    except Exception:       # pragma: no cover
+        return
+
+    def m_erfc(interp, x, *a, **k):
+        if isinstance(x, Sym):
+            return interp.ctx.uf_apply('erfc', [x])
+        if isinstance(x, np.ndarray) and x.dtype == object and contains_sym(x):
+            return np.frompyfunc(lambda v: interp.ctx.uf_apply('erfc', [lift(v)]), 1, 1)(x)
+        return interp.call_real(erfc, [x] + list(a), k)
+    DEFAULT_MODELS[erfc] = m_erfc
+
+
+_register_scipy_models()
